@@ -199,14 +199,23 @@ func mkTriple(a *big.Int, ti, ea int, r *big.Int, tj, er int, msg []byte, vs var
 	return triple{append([]byte{}, EA...), msg, sig}
 }
 
-// honestTriple signs with the implementation (inputs only; verdicts always come from the model).
-func honestTriple(seedIdx int, msg []byte, vs variantSpec) triple {
+// libTriple signs with the implementation (used where the library's own signer is the subject:
+// C02, C03, the literal half of C07).
+func libTriple(seedIdx int, msg []byte, vs variantSpec) triple {
 	k := NewKeyFromSeed(seedOf(seedIdx))
 	sig, err := k.Sign(nil, msg, vs.opts(false))
 	if err != nil {
 		panic(err)
 	}
 	return triple{append([]byte{}, k[32:]...), msg, sig}
+}
+
+// honestTriple is an honest RFC 8032 triple made by the MODEL's signer (memoised): the inputs of
+// the verification checks do not depend on the library's signer, so a signing defect cannot
+// disturb them (it is C02 / C03's to report).
+func honestTriple(seedIdx int, msg []byte, vs variantSpec) triple {
+	t := modelTriple(seedIdx, msg, vs)
+	return triple{append([]byte{}, t.key...), append([]byte{}, t.msg...), append([]byte{}, t.sig...)}
 }
 
 // model verdict, memoised on the bytes.
